@@ -413,7 +413,7 @@ func runHarness(pkgDir, harness string, loopBound, nval int, seed int64, maxPath
 				}
 			}
 			if len(res.Samples) < 4 {
-				res.Samples = append(res.Samples, fmt.Sprintf("path %d: decisions=%d reach=%v errors=%v", e.Paths, len(e.decisions), e.ReachLog[reachBefore:], tail(e.trace, 3)))
+				res.Samples = append(res.Samples, fmt.Sprintf("path %d: decisions=%d reach=%v errors=%v", e.Paths, len(e.decisions), e.ReachLog[reachBefore:], tail(e.trace, traceTail())))
 			}
 		}()
 		e.Paths++
@@ -524,4 +524,12 @@ func keysSorted(m map[string]bool) []string {
 	}
 	sort.Strings(ks)
 	return ks
+}
+
+// traceTail: how many trailing error-trace entries a path sample shows (GOSYM_TRACETAIL, default 3).
+func traceTail() int {
+	if n, err := strconv.Atoi(os.Getenv("GOSYM_TRACETAIL")); err == nil && n > 0 {
+		return n
+	}
+	return 3
 }
